@@ -258,6 +258,14 @@ def f_after(seconds, value):
     return value
 
 
+def f_gate(path=None, x=0, *a, **k):
+    """waits (at most 10 s) until the file `path` exists, then returns x * x"""
+    t0 = time.time()
+    while path and not os.path.exists(path) and time.time() - t0 < 10:
+        time.sleep(0.002)
+    return x * x
+
+
 def _mk_failing_init():
     """subclasses of the six worker classes whose child-side start-up hook raises"""
     from pyworkers.thread import ThreadWorker
